@@ -261,7 +261,9 @@ func (check typecheck) binaryExpr(n *node) error {
 			return n.cfgErrorf("invalid operation: division by zero")
 		}
 	case aQuo:
-		if zeroConst(c1) {
+		// Division by a constant zero is an error for integers and for constant
+		// operands only: x / 0.0 with a floating-point variable x is +-Inf or NaN.
+		if zeroConst(c1) && (c0.rval.IsValid() || isInt(c0.typ.TypeOf())) {
 			return n.cfgErrorf("invalid operation: division by zero")
 		}
 		if c0.rval.IsValid() && c1.rval.IsValid() {
